@@ -282,9 +282,12 @@ func genDual(r *rand.Rand) DBody {
 			add("title", DExpr{Kind: "str", Str: "t"})
 			add("labels", DExpr{Kind: "obj", Keys: []string{"k"}, Items: []DExpr{{Kind: "str", Str: "v"}}})
 		}
+		hasOpts := false
 		if r.Intn(3) == 0 {
+			hasOpts = true
 			rb.Blocks = append(rb.Blocks, DBlock{Type: "opts", Body: DBody{Attrs: []DAttr{{"flag", DExpr{Kind: "bool", Str: "true"}}, {"via", g.strOrRef()}}}})
 		}
+		_ = hasOpts
 		for k, m := 0, r.Intn(3); k < m; k++ {
 			rb.Blocks = append(rb.Blocks, DBlock{Type: "item", Body: DBody{Attrs: []DAttr{{"val", g.strOrRef()}}}})
 		}
@@ -298,6 +301,19 @@ func genDual(r *rand.Rand) DBody {
 		}
 		b.Blocks = append(b.Blocks, DBlock{Type: "res", Labels: []string{typ, name}, Body: rb})
 		g.decls = append(g.decls, fmt.Sprintf("res.%s.%s", typ, name))
+		if i%2 == 1 {
+			// a resource of a type no dependent body is registered for: the static body alone is in force and dynamic
+			// blocks are propagated into its nested blocks.  Inside a nested block WITHOUT dependent bodies a static and a
+			// dynamic block of a block type two levels down (no random draw)
+			fe := DAttr{Name: "for_each", Val: DExpr{Kind: "list", Items: []DExpr{{Kind: "str", Str: "a"}}}}
+			ub := DBody{Attrs: []DAttr{{"str", DExpr{Kind: "str", Str: "u"}}}, Blocks: []DBlock{{Type: "opts", Body: DBody{
+				Attrs: []DAttr{{"flag", DExpr{Kind: "bool", Str: "false"}}},
+				Blocks: []DBlock{
+					{Type: "sub", Body: DBody{Attrs: []DAttr{{"s", DExpr{Kind: "str", Str: "one"}}}}},
+					{Type: "dynamic", Labels: []string{"sub"}, Body: DBody{Attrs: []DAttr{fe}, Blocks: []DBlock{{Type: "content", Body: DBody{Attrs: []DAttr{{"s", DExpr{Kind: "str", Str: "two"}}}}}}}},
+				}}}}}
+			b.Blocks = append(b.Blocks, DBlock{Type: "res", Labels: []string{"unk", fmt.Sprintf("u%d", i)}, Body: ub})
+		}
 	}
 	for i, n := 0, r.Intn(3); i < n; i++ {
 		ob := DBody{Attrs: []DAttr{{"value", g.strOrRef()}}}
